@@ -10,20 +10,20 @@ import (
 )
 
 // C02: Threshold.Threshold(n) == ceil(n*t/100) exactly, on the full grid
-// n in 1..N x t in 51.0..100.0 step 0.1. Reference: integer arithmetic on tenths.
+// n in 0..N x t in 51.0..100.0 step 0.1. Reference: integer arithmetic on tenths.
 func TestVerifC02(t *testing.T) {
 	r := vlib.Start("C02")
 	defer r.Finish()
-	r.Rule("exhaustive grid n in 1..N x t in {51.0,51.1,...,100.0}; every (n,t) is a distinct input; non-trivial = n*t10 not a multiple of 1000 (ceiling actually rounds)")
+	r.Rule("exhaustive grid n in 0..N (0 = empty set of voters, as memberlist's broadcastEnsured passes when every remote is excluded) x t in {51.0,51.1,...,100.0}; every (n,t) is a distinct input; non-trivial = n*t10 not a multiple of 1000 (ceiling actually rounds)")
 	N := vlib.Pick(r, 5000, 100000)
 	r.Set("n_max", N)
 	r.Set("thresholds", 491)
 	_, nsh := r.Shard()
-	for n := 1; n <= N; n++ {
+	for n := 0; n <= N; n++ {
 		if !r.Mine(n) {
 			continue
 		}
-		if n%1024 == 0 && r.Expired() {
+		if n > 0 && n%1024 == 0 && r.Expired() {
 			r.Min("n_completed_below", int64(n))
 			break
 		}
